@@ -264,7 +264,17 @@ func genBigFloat(r *hx.RNG, tier string) (*big.Float, string) {
 		return x, "finite"
 	}
 	m := new(big.Int).SetUint64(r.U64())
-	if r.Chance(25) {
+	wide := r.Chance(4)
+	if wide {
+		// a precision of thousands of bits (a short mantissa, so that the conversion stays cheap): what a precision-0
+		// receiver is given, the documented ceil(Prec() x log10(2)), is compared with an exact count
+		prec = uint(r.Range(2000, 140000))
+		if r.Chance(30) {
+			prec = uint([]int{13301, 26602, 37767, 39903, 42039, 51068, 66505, 65536, 100000, 131072}[r.Intn(10)] + r.Range(-1, 1))
+		}
+		x.SetPrec(prec)
+	}
+	if wide || r.Chance(25) {
 		// far fewer significant bits than the precision provides (3 held at 128 bits): Prec() and MinPrec() differ widely
 		m.SetUint64(r.U64()>>uint(r.Range(0, 63)) | 1)
 	} else {
@@ -279,7 +289,7 @@ func genBigFloat(r *hx.RNG, tier string) (*big.Float, string) {
 		maxE = 100000
 	}
 	e := r.Range(-maxE, maxE)
-	if r.Chance(40) {
+	if wide || r.Chance(40) {
 		e = r.Range(-80, 80)
 	}
 	x.SetMantExp(x, e-m.BitLen())
@@ -333,7 +343,7 @@ func c15SetFloat(c *hx.Ctx, r *hx.RNG) {
 	neg := x.Signbit()
 	pe := p
 	if p == 0 {
-		pe = int64(math.Ceil(float64(x.Prec()) * (math.Ln2 / math.Ln10)))
+		pe = oracle.Digits(new(big.Int).Lsh(big.NewInt(1), x.Prec())) // ceil(Prec() x log10(2)), exactly: the number of digits of 2^Prec()
 		if int64(got.Prec) != pe && !(got.Prec == 0 && cls != "finite") {
 			c.Violate("wrong-precision", fmt.Sprintf("%s: precision 0 became %d, documented %d", what, got.Prec, pe), "")
 		}
